@@ -4,7 +4,7 @@ From Coq Require Import List NArith Bool.
 From Coq Require Import ZArith.
 From MW Require Import Common.Str C09.Gen_tables C09.Model C09.Proofs C09.Proofs2 C09.Proofs3.
 From MW Require C01.Model C01.Gen_resolve C10.Regex C10.Tags C10.Gen_rules C10.Model C10.Proofs.
-From MW Require Import C09.Scanner C09.Scanner2 C09.EntModel C09.EntProofs.
+From MW Require Import C09.Scanner C09.Scanner2 C09.EntModel C09.EntProofs C09.PreModel C09.PreProofs C09.TableProofs.
 Import ListNotations.
 Open Scope N_scope.
 
@@ -187,6 +187,62 @@ Example C09_entity_decode_example :
   /\ pyint_strict C01.Model.ascii_int /\ (forall s z, ex_names s = Some z -> (0 <= z < 1114112)%Z).
 Proof. exact decode_example. Qed.
 Print Assumptions C09_entity_decode_example.
+
+(* <pre> BODIES (core.py create_pre = util.replace_html_entities(util.remove_nowiki_tags(inner)); the order and the shape of
+   remove_nowiki_tags -- re.sub("<nowiki>(.*?)</nowiki>", IGNORECASE|DOTALL, group 1) -- are pinned by vt/gen/c09_tables.py,
+   the IGNORECASE fold table is regenerated; the model is run against the real function by the check).
+   remove_nowiki_tags tiles the body AS WRITTEN: every character is copied in order except the opening and closing part of a
+   pair, and each such part is literally "<nowiki>" / "</nowiki>" up to letter case in the written body. *)
+Theorem C09_pre_removes_only_written_nowiki_pairs : forall s,
+  concat (map nseg_src (nsegments s)) = s /\
+  remove_nowiki_tags s = concat (map nseg_out (nsegments s)) /\
+  Forall nseg_shape (nsegments s).
+Proof. exact remove_nowiki_tiles. Qed.
+Print Assumptions C09_pre_removes_only_written_nowiki_pairs.
+
+(* Decoding comes last and is not looked at again: for a body without a literal "<" -- all of its markup-looking content,
+   the nowiki tag included, is written with character references -- <pre> delivers exactly what <nowiki> delivers, the
+   single-pass decoding of C09_entity_decode_only_refs.  Nothing that exists only after decoding is interpreted or removed.
+   (For every resolve callback and both patterns.) *)
+Theorem C09_pre_entity_written_markup_kept : forall resolve strict b,
+  ~ In 60 b -> create_pre_text resolve strict b = create_nowiki_text resolve strict b.
+Proof. exact pre_entity_written_kept. Qed.
+Print Assumptions C09_pre_entity_written_markup_kept.
+
+Theorem C09_pre_no_lt_untouched : forall s, ~ In 60 s -> remove_nowiki_tags s = s.
+Proof. exact remove_nowiki_no_lt. Qed.
+Print Assumptions C09_pre_no_lt_untouched.
+
+(* "&lt;nowiki&gt;[[x]]&#60;/NOWIKI&#x3e; <NoWiki>&amp;lt;</nowiKi>" -> "<nowiki>[[x]]</NOWIKI> &lt;"; its "<"-free prefix
+   satisfies the hypothesis of the theorem above and keeps the entity-written pair. *)
+Example C09_pre_example :
+  create_pre_text (C01.Model.resolve_entity C01.Model.ascii_int ex_names3 C01.Gen_resolve.caught_numeric C01.Gen_resolve.surrogate_guard) ent_strict ex_pre_body
+    = C01.Model.Ok ex_pre_out
+  /\ ~ In 60 (firstn 38 ex_pre_body)
+  /\ create_pre_text (C01.Model.resolve_entity C01.Model.ascii_int ex_names3 C01.Gen_resolve.caught_numeric C01.Gen_resolve.surrogate_guard) ent_strict (firstn 38 ex_pre_body)
+     = C01.Model.Ok (firstn 23 ex_pre_out).
+Proof. exact pre_example. Qed.
+Print Assumptions C09_pre_example.
+
+(* MARKER TABLES ARE NOT INTERCHANGEABLE.  The keys of the table replace_tags builds depend only on the random string (one per
+   process), the start counter and the tag names of the regions in order -- not on bodies, attributes or surrounding text.  So
+   the table of the article and the table of the second expander that create_pages / create_ref use have equal keys whenever
+   their regions have the same tag names: a marker must be resolved in the table of the Uniquifier that produced it. *)
+Theorem C09_marker_keys_depend_only_on_tags : forall rand k t1 t2,
+  map e_tag (tag_entries (segments t1)) = map e_tag (tag_entries (segments t2)) ->
+  map fst (snd (protect rand k t1)) = map fst (snd (protect rand k t2)).
+Proof. exact keys_depend_only_on_tags. Qed.
+Print Assumptions C09_marker_keys_depend_only_on_tags.
+
+(* article <nowiki>''o''</nowiki>, transcluded page <nowiki>[[p]]</nowiki>: equal keys; the page's protected text restored with
+   its own table gives [[p]], with the article's table ''o'' (silent swap), with an unrelated table the raw marker. *)
+Example C09_foreign_table_example :
+  map fst (snd (protect [48; 97] 0 ex_article)) = map fst (snd (protect [48; 97] 0 ex_page)) /\
+  restore (snd (protect [48; 97] 0 ex_page)) (fst (protect [48; 97] 0 ex_page)) = [91;91;112;93;93] /\
+  restore (snd (protect [48; 97] 0 ex_article)) (fst (protect [48; 97] 0 ex_page)) = [39;39;111;39;39] /\
+  restore [] (fst (protect [48; 97] 0 ex_page)) = marker [48; 97] nowiki 0.
+Proof. exact foreign_table_example. Qed.
+Print Assumptions C09_foreign_table_example.
 
 (* The hypothesis no_exotic is needed: the code matches <ſource> (U+017F) as a source tag under
    re.IGNORECASE, builds a marker with a non-ASCII name, and replace_uniq never restores it.
